@@ -204,9 +204,15 @@ def predicate(case):
                           (oldp[d] is None or oldp[d][0] < hit["ts"]) and hit["chain"] == 1 and
                           (hit["mf"] & 1) and hit["max"] > 0 and hit["max"] >= hit["min"] and
                           (capm == 0 or hit["max"] <= capm)):
-                    why = ("policy replaced by a not-strictly-newer update"
-                           if (oldp[d] is not None and oldp[d][0] >= hit["ts"])
-                           else "updated by an update that is not authentic/consistent")
+                    if oldp[d] is not None and oldp[d][0] >= hit["ts"]:
+                        why = "policy replaced by a not-strictly-newer update"
+                    elif capm != 0 and hit["max"] > capm:
+                        why = ("updated with inconsistent fields: htlc_maximum_msat %d exceeds the "
+                               "capacity %d msat" % (hit["max"], capm))
+                    elif not (hit["mf"] & 1) or hit["max"] == 0 or hit["max"] < hit["min"]:
+                        why = "updated with inconsistent fields (max-htlc flag / max / min)"
+                    else:
+                        why = "updated by an update that is not authentic"
                     fails.append("step %d: policy %d/%d %s: %s (old %s, cap %d)" %
                                  (i, scid, d, why, hit, oldp[d], c[5]))
                 else:
